@@ -14,6 +14,7 @@
 From Coq Require Import ZArith List Bool Arith.
 Import ListNotations.
 From GV Require Import Common.Wire gen.Gen_memo C01.Heap.
+Close Scope Z_scope.
 
 (* ------------------------------------------------------------------ specification *)
 Inductive expr : Type :=
@@ -188,6 +189,34 @@ Definition eval_req (lm : nat -> nat -> nat -> mask) (mcopy : bool) (r : req) (s
 
 Definition run_reqs (lm : nat -> nat -> nat -> mask) (mcopy : bool) (rs : list req) (st : state) : state :=
   fold_left (fun s r => fst (eval_req lm mcopy r s)) rs st.
+
+(* ------------------------------------------------------------------ specification of the heap evaluator *)
+(* [den i d v] : what the state object with identity i denotes on data d under view v.
+   A memo store is coherent when every entry points at a live array holding the denotation of its key. *)
+Definition coherent (den : nat -> nat -> nat -> mask) (st : state) : Prop :=
+  forall k a, mlookup k (st_memo st) = Some a ->
+    a < length (st_heap st) /\ hget (st_heap st) a = den (k_id k) (k_d k) (k_v k).
+
+(* identities are used consistently: every object of the tree denotes the elementwise evaluation of the
+   expression it stands for (one identity never stands for two different selections) *)
+Fixpoint sem_ok (den : nat -> nat -> nat -> mask) (lm : nat -> nat -> nat -> mask) (d v : nat) (e : nexpr) : Prop :=
+  den (nid e) d v = eval (fun n => lm n d v) (erase e) /\
+  match e with
+  | NLeaf _ _ _ => True
+  | NBin _ _ _ a b => sem_ok den lm d v a /\ sem_ok den lm d v b
+  | NNot _ _ a => sem_ok den lm d v a
+  | NMulti _ _ l =>
+    (fix all (l : list nexpr) : Prop := match l with [] => True | c :: t => sem_ok den lm d v c /\ all t end) l
+  end.
+
+(* cache entries are never redirected: an entry of the new store is an old entry or points at a new array *)
+Definition memo_mono (st st' : state) : Prop :=
+  forall k a, mlookup k (st_memo st') = Some a ->
+    mlookup k (st_memo st) = Some a \/ length (st_heap st) <= a.
+
+Definition req_ok (den : nat -> nat -> nat -> mask) (lm : nat -> nat -> nat -> mask) (N : nat -> nat -> nat) (r : req) : Prop :=
+  sem_ok den lm (r_d r) (r_v r) (r_e r) /\ wf (erase (r_e r)) /\
+  (forall n, length (lm n (r_d r) (r_v r)) = N (r_d r) (r_v r)).
 
 (* ------------------------------------------------------------------ copy() and the edit modes on objects *)
 (* SubsetState.copy(): a leaf copy is a new object; a composite builds type(self)(state1, state2) whose
